@@ -9,6 +9,6 @@ CONSTANTS
   ThrSet = {0, 1, 2, 3, 4}
   PosSet = {1}
 INVARIANTS TypeOK IterRefinesInv
-PROPERTIES SetExact Counts Algebra EqualOK ReadOnly IterMeaning
+PROPERTIES SetExact RunExact Counts Algebra EqualOK ReadOnly IterMeaning
 VIEW View
 CHECK_DEADLOCK FALSE
